@@ -117,7 +117,7 @@ feature calt {
   ignore sub d d';
   sub d' by D;
 } calt;
-feature rclt { rsub [A B] a' [c d] by b; rsub D b' by c; } rclt;
+feature rclt { rsub [A B] a' [c d] by b; rsub D b' by c; rsub V [a b c d]' by [d c a b]; } rclt;
 feature kern {
   pos A V -80; pos A a 13; pos V A -75; pos f_i A <10 0 20 0>;
   pos A <0 0 7 0> C <3 0 0 0>;
